@@ -532,6 +532,81 @@ func c14FValues(c *enumx.Ctx) {
 	c.Sample("-a always,exit -F key=team=sec,env=prod => ONE filter key = \"team=sec,env=prod\"")
 }
 
+// c14Environment: the words of a line are data, not templates: a reference to something of the calling process
+// (an environment variable that IS set, the home directory, a user name) in any of the notations shells, make,
+// systemd, Windows and template languages use stays the text that was written.  The variable names are those the
+// process really has plus two set here (one whose value contains separators and operators).
+func c14Environment(c *enumx.Ctx) {
+	os.Setenv("VERIF_X", "a,b c=d")
+	os.Setenv("VERIF_EMPTY", "")
+	names := []string{}
+	for _, kv := range os.Environ() {
+		if i := strings.Index(kv, "="); i > 0 {
+			names = append(names, kv[:i])
+		}
+	}
+	names = append(names, "UNSET_VARIABLE_X", "1", "@", "*", "#", "?", "$", "!", "0", "_")
+	forms := []func(n string) string{
+		func(n string) string { return "$" + n }, func(n string) string { return "${" + n + "}" }, func(n string) string { return "%" + n + "%" },
+		func(n string) string { return "$(" + n + ")" }, func(n string) string { return "${" + n + ":-z}" }, func(n string) string { return "${" + n + ":+z}" }, func(n string) string { return "${#" + n + "}" },
+		func(n string) string { return "$ENV{" + n + "}" }, func(n string) string { return "{{" + n + "}}" }, func(n string) string { return "{{." + n + "}}" }, func(n string) string { return "{{ env \"" + n + "\" }}" },
+		func(n string) string { return "%(" + n + ")s" }, func(n string) string { return "<" + n + ">" }, func(n string) string { return "%{" + n + "}" }, func(n string) string { return "$[" + n + "]" }, func(n string) string { return "@" + n + "@" },
+		func(n string) string { return "$env:" + n }, func(n string) string { return "!" + n + "!" }, func(n string) string { return "`echo $" + n + "`" },
+	}
+	words := []string{"~", "~/x", "~root", "~root/x", "~+", "~-", "%h", "%u", "%H", "%%", "$$", "$", "${", "${}", "$()", "!!", "!$", "\\$HOME", "%n", "%s", "%d", "%v", "%[1]s", "{}", "{0}", "{name}", "#{x}", "<%= x %>", "&x;", "\\N{DIGIT ONE}"}
+	for _, n := range names {
+		for _, f := range forms {
+			words = append(words, f(n))
+		}
+	}
+	for _, w := range words {
+		for _, v := range []string{w, "pre" + w + "post", w + "/" + w} {
+			if !c.Mine() {
+				continue
+			}
+			checkLine(c, []group{{Flag: "-w", Arg: "/srv/" + v}, {Flag: "-p", Arg: "wa"}, {Flag: "-k", Arg: v}})
+			checkLine(c, []group{{Flag: "-a", Arg: "always,exit"}, {Flag: "-F", Arg: "path=/srv/" + v}, {Flag: "-F", Arg: "key=" + v}})
+			checkLine(c, []group{{Flag: "-a", Arg: "always,exit"}, {Flag: "-S", Arg: v}, {Flag: "-C", Arg: "uid!=" + v}, {Flag: "-k", Arg: v}})
+			checkLine(c, []group{{Flag: "-a", Arg: "always,exit"}, {Flag: "-F", Arg: v + "=1"}, {Flag: "-F", Arg: "exe=" + v}})
+			checkLine(c, []group{{Flag: "-D", Bare: true}, {Flag: "-k", Arg: v}})
+		}
+	}
+	c.Sample("-w '/srv/${HOME}' -p wa -k '${HOME}' => Path \"/srv/${HOME}\", key \"${HOME}\" (with HOME set in the process)")
+}
+
+// c14AddPairs: every list x action pair in both word orders as the argument of -a and of -A, alone and as every
+// ordered pair of two such flags: one is a rule with exactly that list and action (or an error), two are an error
+// - whichever values they carry (a value that happens to be the zero value of its representation is not "unset").
+func c14AddPairs(c *enumx.Ctx) {
+	var vals []string
+	for _, l := range []string{"task", "exit", "user", "exclude"} {
+		for _, a := range []string{"always", "never"} {
+			vals = append(vals, l+","+a, a+","+l)
+		}
+	}
+	tails := [][]group{{{Flag: "-S", Arg: "open"}}, {}, {{Flag: "-F", Arg: "uid=0"}, {Flag: "-k", Arg: "k"}}}
+	for _, f1 := range []string{"-a", "-A"} {
+		for _, v1 := range vals {
+			for _, tl := range tails {
+				if c.Mine() {
+					checkLine(c, append([]group{{Flag: f1, Arg: v1}}, tl...))
+					checkLine(c, append(append([]group{}, tl...), group{Flag: f1, Arg: v1}))
+				}
+			}
+			for _, f2 := range []string{"-a", "-A"} {
+				for _, v2 := range vals {
+					if !c.Mine() {
+						continue
+					}
+					checkLine(c, []group{{Flag: f1, Arg: v1}, {Flag: f2, Arg: v2}, {Flag: "-S", Arg: "open"}})
+					checkLine(c, []group{{Flag: f1, Arg: v1}, {Flag: "-S", Arg: "open"}, {Flag: f2, Arg: v2}})
+				}
+			}
+		}
+	}
+	c.Sample("-a task,always -A exit,never -S open => rejected (both -a and -A)")
+}
+
 func c14Lines(c *enumx.Ctx) {
 	maxLen := 3
 	if c.Tier == "thorough" {
@@ -559,4 +634,6 @@ func init() {
 	gens["c14-syntax"] = c14Syntax
 	gens["c14-runes"] = c14Runes
 	gens["c14-fvalues"] = c14FValues
+	gens["c14-environment"] = c14Environment
+	gens["c14-addpairs"] = c14AddPairs
 }
